@@ -252,6 +252,18 @@ def moisture_rule(ctx, d1):
         key = ('water-by-mol' if by_id else 'by-mass', 'non-strict repair' if repaired else 'no repair')
         # the mass-basis repair mixes imass (adjustment) and imol (repair) accesses of the same cell: the ratio is a constant
         okk = (total == want)
+        # ... but an amount moved from one stream to the other is the same amount only in the same basis: the paired `+= d` / `-= d`
+        # must go through the same view (both imass or both imol) of the two streams
+        first = {}
+        for e in p.events:
+            if e.kind in ('store', 'augstore'):
+                mm = re.match(r'^(\w+)\.(imol|imass|ivol|mol|mass|vol)\[', e.target)
+                if mm and mm.group(1) not in first:
+                    first[mm.group(1)] = (mm.group(2).lstrip('i'), e)
+        if len(first) == 2 and len({v[0] for v in first.values()}) > 1:
+            okk = False
+            total = Form.atom('the moisture set in one stream through .%s is taken out of the other through .%s' % tuple(
+                ('i' + first[k_][0]) for k_ in sorted(first, key=lambda k_: first[k_][1].stmt.lineno)))
         prev = seen.get(key)
         seen[key] = (okk if prev is None else (prev[0] and okk), total, p)
     if not seen:
